@@ -1,18 +1,42 @@
 base/Corr.vo base/Corr.glob base/Corr.v.beautified base/Corr.required_vo: base/Corr.v base/PyStr.vo
 base/Corr.vio: base/Corr.v base/PyStr.vio
 base/Corr.vos base/Corr.vok base/Corr.required_vos: base/Corr.v base/PyStr.vos
-base/Json.vo base/Json.glob base/Json.v.beautified base/Json.required_vo: base/Json.v base/PyStr.vo
-base/Json.vio: base/Json.v base/PyStr.vio
-base/Json.vos base/Json.vok base/Json.required_vos: base/Json.v base/PyStr.vos
+base/Json.vo base/Json.glob base/Json.v.beautified base/Json.required_vo: base/Json.v base/PyStr.vo base/Corr.vo
+base/Json.vio: base/Json.v base/PyStr.vio base/Corr.vio
+base/Json.vos base/Json.vok base/Json.required_vos: base/Json.v base/PyStr.vos base/Corr.vos
 base/PyStr.vo base/PyStr.glob base/PyStr.v.beautified base/PyStr.required_vo: base/PyStr.v 
 base/PyStr.vio: base/PyStr.v 
 base/PyStr.vos base/PyStr.vok base/PyStr.required_vos: base/PyStr.v 
 base/PyStrFacts.vo base/PyStrFacts.glob base/PyStrFacts.v.beautified base/PyStrFacts.required_vo: base/PyStrFacts.v base/PyStr.vo
 base/PyStrFacts.vio: base/PyStrFacts.v base/PyStr.vio
 base/PyStrFacts.vos base/PyStrFacts.vok base/PyStrFacts.required_vos: base/PyStrFacts.v base/PyStr.vos
+io/AuditFacts.vo io/AuditFacts.glob io/AuditFacts.v.beautified io/AuditFacts.required_vo: io/AuditFacts.v base/PyStrFacts.vo io/Unsafe.vo io/UnsafeFacts.vo
+io/AuditFacts.vio: io/AuditFacts.v base/PyStrFacts.vio io/Unsafe.vio io/UnsafeFacts.vio
+io/AuditFacts.vos io/AuditFacts.vok io/AuditFacts.required_vos: io/AuditFacts.v base/PyStrFacts.vos io/Unsafe.vos io/UnsafeFacts.vos
+io/Construct.vo io/Construct.glob io/Construct.v.beautified io/Construct.required_vo: io/Construct.v io/Walk.vo
+io/Construct.vio: io/Construct.v io/Walk.vio
+io/Construct.vos io/Construct.vok io/Construct.required_vos: io/Construct.v io/Walk.vos
+io/GetTree.vo io/GetTree.glob io/GetTree.v.beautified io/GetTree.required_vo: io/GetTree.v io/Node.vo
+io/GetTree.vio: io/GetTree.v io/Node.vio
+io/GetTree.vos io/GetTree.vok io/GetTree.required_vos: io/GetTree.v io/Node.vos
+io/Node.vo io/Node.glob io/Node.v.beautified io/Node.required_vo: io/Node.v base/Json.vo io/Registry.vo
+io/Node.vio: io/Node.v base/Json.vio io/Registry.vio
+io/Node.vos io/Node.vok io/Node.required_vos: io/Node.v base/Json.vos io/Registry.vos
 io/Registry.vo io/Registry.glob io/Registry.v.beautified io/Registry.required_vo: io/Registry.v base/Json.vo
 io/Registry.vio: io/Registry.v base/Json.vio
 io/Registry.vos io/Registry.vok io/Registry.required_vos: io/Registry.v base/Json.vos
 io/RegistryFacts.vo io/RegistryFacts.glob io/RegistryFacts.v.beautified io/RegistryFacts.required_vo: io/RegistryFacts.v base/PyStr.vo base/PyStrFacts.vo base/Json.vo io/Registry.vo
 io/RegistryFacts.vio: io/RegistryFacts.v base/PyStr.vio base/PyStrFacts.vio base/Json.vio io/Registry.vio
 io/RegistryFacts.vos io/RegistryFacts.vok io/RegistryFacts.required_vos: io/RegistryFacts.v base/PyStr.vos base/PyStrFacts.vos base/Json.vos io/Registry.vos
+io/Show.vo io/Show.glob io/Show.v.beautified io/Show.required_vo: io/Show.v io/Construct.vo base/Corr.vo
+io/Show.vio: io/Show.v io/Construct.vio base/Corr.vio
+io/Show.vos io/Show.vok io/Show.required_vos: io/Show.v io/Construct.vos base/Corr.vos
+io/Unsafe.vo io/Unsafe.glob io/Unsafe.v.beautified io/Unsafe.required_vo: io/Unsafe.v io/GetTree.vo
+io/Unsafe.vio: io/Unsafe.v io/GetTree.vio
+io/Unsafe.vos io/Unsafe.vok io/Unsafe.required_vos: io/Unsafe.v io/GetTree.vos
+io/UnsafeFacts.vo io/UnsafeFacts.glob io/UnsafeFacts.v.beautified io/UnsafeFacts.required_vo: io/UnsafeFacts.v base/PyStrFacts.vo io/Unsafe.vo
+io/UnsafeFacts.vio: io/UnsafeFacts.v base/PyStrFacts.vio io/Unsafe.vio
+io/UnsafeFacts.vos io/UnsafeFacts.vok io/UnsafeFacts.required_vos: io/UnsafeFacts.v base/PyStrFacts.vos io/Unsafe.vos
+io/Walk.vo io/Walk.glob io/Walk.v.beautified io/Walk.required_vo: io/Walk.v io/Unsafe.vo
+io/Walk.vio: io/Walk.v io/Unsafe.vio
+io/Walk.vos io/Walk.vok io/Walk.required_vos: io/Walk.v io/Unsafe.vos
